@@ -138,6 +138,11 @@ def main():
         proof_broken = True
         gate["detail"].append("model driver unavailable or fails its self-test")
 
+    # the case budget starts once the model is built and the proofs are checked: a cold build (fresh checkout, changed
+    # model) must not eat the exploration
+    t_start, t0 = t0, time.time()
+    deadline = t0 + total
+
     # 3. corpus, then generated cases -----------------------------------------------------------
     rng = common.mk_rng(seed, pid, tier)
     corpus = common.load_corpus(pid)
@@ -271,10 +276,10 @@ def main():
         explanation=getattr(mod, "EXPLANATION", ""),
     )
     common.write_evidence(pid, tier, seed, coverage, list(getattr(mod, "ASSUMPTIONS", [])),
-                          time.time() - t0, violations)
+                          time.time() - t_start, violations)
     print("%s %s: %d cases, %d compared observations, %d distinct non-trivial, theorems %d/%d, %.1fs%s"
           % (pid, tier, n_eval, nsteps, len(distinct), gate["discharged"], gate["obligations"],
-             time.time() - t0, "" if not violations else ", VIOLATIONS: %d" % violations))
+             time.time() - t_start, "" if not violations else ", VIOLATIONS: %d" % violations))
     return 1 if violations else 0
 
 
